@@ -71,7 +71,8 @@ CHECKS = {
         ref='3/C04'),
     'C05': dict(
         cat='exploration',
-        technique='offline history checker (chain rule) over derive/write/'
+        technique='fault injection (one rewrite of the output file fails) + '
+        'offline history checker (chain rule) over derive/write/'
         'command events of real parallel runs under delay injection',
         text='Events recorded at the worker boundary, at every output write '
         'and by the command itself are checked offline: every write must be '
@@ -84,7 +85,8 @@ CHECKS = {
         technique='crash snapshot at every failpoint of every rewrite of the '
         'output file, injected interrupts/kills, real signals, live reader, '
         'strace rule, adoption-to-write promptness markers (sequential and '
-        'parallel path of ddmin, hierarchical)',
+        'parallel path of ddmin, hierarchical), injected interrupt at any '
+        'statement of the reduction (sys.monitoring LINE failpoints)',
         text='At every LINE event inside write_smtlib_to_file the monitor '
         'reads the output file from disk (what a kill would leave and a '
         'reader would see) and compares it with the previous/next accepted '
@@ -137,7 +139,9 @@ CHECKS = {
         ref='3/C10'),
     'C11': dict(
         cat='exploration',
-        technique='nested-list substitution model vs apply_simp/substitute; '
+        technique='in-worker monitor comparing every local candidate of real '
+        'runs with its designated BFS position; '
+        'nested-list substitution model vs apply_simp/substitute; '
         'identity and base-immutability assertions; the same model against '
         'the real ddmin _worker / hierarchical Consumer.check over '
         'histories of pickled inputs',
@@ -190,7 +194,8 @@ CHECKS = {
         ref='3/C15'),
     'C16': dict(
         cat='exploration',
-        technique='generator typing as ground truth vs get_sort/get_bv_width '
+        technique='generator typing as ground truth (also on variants with a '
+        'comment inside a term) vs get_sort/get_bv_width '
         'at every term position over sequences of scripts in one process, '
         'incl. terms nested beyond the recursion limit; '
         'cvc5 as reference sort checker for same-sort replacements; '
@@ -201,7 +206,8 @@ CHECKS = {
         ref='3/C16'),
     'C17': dict(
         cat='exploration',
-        technique='independent SMT-LIB evaluator on (subterm, replacement) '
+        technique='independent SMT-LIB evaluator (also on instances with a '
+        'comment inside the term) on (subterm, replacement) '
         'pairs under exhaustive/sampled assignments; definition-to-inline '
         'vs definition-in-input invariant hooked into real runs',
         text='Instances for each identity mutator are generated, the real '
